@@ -458,7 +458,8 @@ def rule_subsort_table(ctx):
     """simplify_transitive_equality keeps the variable of the smaller sort: subsort(v1, v2) must be the subsort relation of the three sorts
     (every sort is a subsort of itself and of `general`; integer and symbol are unrelated)."""
     fx = ctx.facts
-    b = fx.fn("classic::unstable::subsort")
+    from .c17 import subsort_body
+    b = subsort_body(fx)
     ev = sym.Eval(fx, inline_depth=0)
     sorts = fx.variants("syntax_tree::fol::sigma_0::Sort")
     ctx.add("RW-7", "subsort:sorts", sorted(sorts) == ["General", "Integer", "Symbol"], ctx.site(b), "sorts: %s" % sorts)
